@@ -43,6 +43,12 @@ theorem run_pure_ok {α : Type} {a b : α} {m m' : Map X} (h : run (pure a : P X
   simp only [Prog.pure_eq, run_ret, Prod.mk.injEq, Out.ok.injEq] at h
   exact ⟨h.1.symm, h.2.symm⟩
 
+theorem run_ite_abort_ok {α : Type} {c : Prop} [Decidable c] {e : Err} {p : P X α} {m m' : Map X} {a : α}
+    (h : run (if c then (abort e : P X α) else p) m = (.ok a, m')) : ¬ c ∧ run p m = (.ok a, m') := by
+  by_cases hc : c
+  · rw [if_pos hc] at h; simp at h
+  · rw [if_neg hc] at h; exact ⟨hc, h⟩
+
 /-! ## 3-D identifiers and face walks are read-only -/
 
 theorem readOnly_popLoop (gen : Nat → P X (List Nat)) (hg : ∀ d, ReadOnly (gen d)) :
@@ -839,5 +845,327 @@ theorem threeLink3_ok {n ld rd : Nat} {m m' : Map X} {u : Unit} (hw : WF 4 m)
             intro hh
             rw [hh, e_rd] at q5
             exact hl0 q5
+
+
+/-! ## `three_unlink` -/
+
+theorem Shrink3.mirror {m m' : Map X} (h : Shrink3 m m') (hM : Mirror m) : Mirror m' := by
+  intro d hd g1 g2 g3
+  have e1 : ∀ x, m'.β 1 x = m.β 1 x := fun x => h.β 1 x (by omega)
+  rw [e1] at g1 g3
+  rw [e1 d]
+  have a2 : m'.β 3 d = m.β 3 d := by
+    rcases h.sub d with hh | hh
+    · exact hh
+    · exact absurd hh g2
+  have a3 : m'.β 3 (m.β 1 d) = m.β 3 (m.β 1 d) := by
+    rcases h.sub (m.β 1 d) with hh | hh
+    · exact hh
+    · exact absurd hh g3
+  rw [a2] at g2 ⊢
+  rw [a3] at g3 ⊢
+  rw [e1]
+  exact hM d (by rw [← h.n]; exact hd) g1 g2 g3
+
+theorem threeUnlink3_ok {n ld : Nat} {m m' : Map X} {u : Unit} (hw : WF 4 m) (hln : ld < m.n)
+    (h : run (threeUnlink3 (X := X) n ld) m = (.ok u, m')) :
+    WF 4 m' ∧ Shrink3 m m' := by
+  unfold threeUnlink3 at h
+  obtain ⟨rd, hb0, h⟩ := run_ro_bind_ok (ReadOnly.rB _ _) h
+  obtain ⟨rfl, _, _⟩ := run_rB_ok hb0
+  obtain ⟨_, m0, hl, h⟩ := run_bind_ok h
+  obtain ⟨_, _, hne, rfl⟩ := iUnlinkCore_ok hl
+  have em : (m.setβ 3 ld 0).setβ 3 (m.β 3 ld) 0 = m.unlinkI 3 ld := rfl
+  rw [em] at h
+  obtain ⟨ls0, hb, h⟩ := run_ro_bind_ok (ReadOnly.rB _ _) h
+  obtain ⟨rfl, _, _⟩ := run_rB_ok hb
+  obtain ⟨rs0, hb', h⟩ := run_ro_bind_ok (ReadOnly.rB _ _) h
+  obtain ⟨rfl, _, _⟩ := run_rB_ok hb'
+  obtain ⟨⟨a, b⟩, m1, hwalk, h⟩ := run_bind_ok h
+  simp only [] at h
+  have hw0 : WF 4 (m.unlinkI 3 ld) := hw.unlinkI (by omega) (by omega) hln hne
+  have hs0 : Shrink3 m (m.unlinkI 3 ld) := Shrink3.unlinkI hw hln
+  have hrn : m.β 3 ld < (m.unlinkI 3 ld).n := hw.range 3 (by omega) ld hln
+  have R := unlinkWalk_ok (by omega) (by omega) (n + 1) _ _ _ m1 (a, b) hw0
+    (hw0.range 1 (by omega) ld hln) (hw0.range 0 (by omega) _ hrn) hwalk
+  by_cases ha : a = 0
+  · rw [if_pos ha] at h
+    by_cases hb0 : b ≠ 0
+    · rw [if_pos hb0] at h; simp at h
+    · rw [if_neg hb0] at h
+      obtain ⟨ls1, hc, h⟩ := run_ro_bind_ok (ReadOnly.rB _ _) h
+      obtain ⟨rfl, _, _⟩ := run_rB_ok hc
+      obtain ⟨rs1, hc', h⟩ := run_ro_bind_ok (ReadOnly.rB _ _) h
+      obtain ⟨rfl, _, _⟩ := run_rB_ok hc'
+      obtain ⟨o2, m2, hwalk2, h⟩ := run_bind_ok h
+      obtain ⟨_, hm'⟩ := run_pure_ok h
+      rw [hm']
+      have hn1 : m1.n = m.n := (hs0.trans R.2).n
+      have R2 := unlinkWalk_ok (by omega) (by omega) (n + 1) _ _ m1 m2 o2 R.1
+        (R.1.range 0 (by omega) ld (by rw [hn1]; exact hln))
+        (R.1.range 1 (by omega) _ (by rw [hn1]; exact hw.range 3 (by omega) ld hln)) hwalk2
+      exact ⟨R2.1, (hs0.trans R.2).trans R2.2⟩
+  · rw [if_neg ha] at h
+    obtain ⟨_, hm'⟩ := run_pure_ok h
+    rw [hm']
+    exact ⟨R.1, hs0.trans R.2⟩
+
+/-! ## the 3-D `one_link` / `one_unlink` -/
+
+/-- only β0 / β1 have been written -/
+structure Only01 (m m' : Map X) : Prop where
+  n : m'.n = m.n
+  u : m'.u = m.u
+  a : m'.a = m.a
+  fc : m'.fc = m.fc
+  β : ∀ e d, 2 ≤ e → m'.β e d = m.β e d
+
+theorem Only01.refl (m : Map X) : Only01 m m := ⟨rfl, rfl, rfl, rfl, fun _ _ _ => rfl⟩
+
+theorem Only01.trans {m m' m'' : Map X} (h1 : Only01 m m') (h2 : Only01 m' m'') : Only01 m m'' :=
+  ⟨h2.n.trans h1.n, h2.u.trans h1.u, h2.a.trans h1.a, h2.fc.trans h1.fc,
+    fun e d he => by rw [h2.β e d he, h1.β e d he]⟩
+
+theorem Only01.unused {m m' : Map X} (h : Only01 m m') (d : Nat) : m'.unused d = m.unused d := by
+  unfold Map.unused; rw [h.u]
+
+theorem Only01.link1 {m : Map X} (h : WF 4 m) {l r : Nat} (hl : l < m.n) (hr : r < m.n) :
+    Only01 m (m.link1 l r) := by
+  refine ⟨rfl, rfl, rfl, rfl, ?_⟩
+  intro e d he
+  rw [h.toSized.β_link1 (by omega) hl hr]
+  have a0 : ¬ (0 = e) := by omega
+  have a1 : ¬ (1 = e) := by omega
+  simp [a0, a1]
+
+theorem Only01.unlink1 {m : Map X} (h : WF 4 m) {l : Nat} (hl : l < m.n) : Only01 m (m.unlink1 l) := by
+  refine ⟨rfl, rfl, rfl, rfl, ?_⟩
+  intro e d he
+  rw [h.toSized.β_unlink1 (by omega) hl (h.range 1 (by omega) l hl)]
+  have a0 : ¬ (0 = e) := by omega
+  have a1 : ¬ (1 = e) := by omega
+  simp [a0, a1]
+
+/-- a 1-link at a 1-free dart `l` does not disturb the mirror condition away from `l` -/
+theorem MAt_link1_frame {m : Map X} (hw : WF 4 m) {l r d : Nat} (hl : l < m.n) (hr : r < m.n)
+    (h1l : m.β 1 l = 0) (hd : d ≠ l) (hM : MAtG m 1 d) : MAtG (m.link1 l r) 1 d := by
+  have eβ := hw.toSized.β_link1 (by omega) hl hr
+  have e3 : ∀ x, (m.link1 l r).β 3 x = m.β 3 x := fun x => (Only01.link1 hw hl hr).β 3 x (by omega)
+  have e1 : ∀ x, (m.link1 l r).β 1 x = if l = x then r else m.β 1 x := by
+    intro x; rw [eβ]; simp
+  unfold MAtG
+  simp only [e3]
+  have nd : ¬ (l = d) := fun hh => hd hh.symm
+  rw [e1 d]
+  simp only [nd, if_false]
+  intro g1 g2 g3
+  rw [e1]
+  by_cases hy : l = m.β 3 (m.β 1 d)
+  · exfalso
+    have := hM g1 g2 g3
+    rw [← hy, h1l] at this
+    exact g2 this.symm
+  · simp only [hy, if_false]
+    exact hM g1 g2 g3
+
+theorem oneLink3_ok {l r : Nat} {m m' : Map X} {u : Unit} (hw : WF 4 m)
+    (hl0 : l ≠ 0) (hr0 : r ≠ 0) (hln : l < m.n) (hrn : r < m.n)
+    (hul : m.unused l = false) (hur : m.unused r = false)
+    (h : run (oneLink3 (X := X) l r) m = (.ok u, m')) :
+    WF 4 m' ∧ Only01 m m' ∧ (Mirror m → Mirror m') := by
+  unfold oneLink3 at h
+  obtain ⟨_, m1, hl, h⟩ := run_bind_ok h
+  obtain ⟨_, _, f1, f0, rfl⟩ := oneLinkCore_ok hl
+  have em : (m.setβ 1 l r).setβ 0 r l = m.link1 l r := rfl
+  rw [em] at h
+  obtain ⟨b3l, hb, h⟩ := run_ro_bind_ok (ReadOnly.rB _ _) h
+  obtain ⟨rfl, _, _⟩ := run_rB_ok hb
+  obtain ⟨b3r, hb', h⟩ := run_ro_bind_ok (ReadOnly.rB _ _) h
+  obtain ⟨rfl, _, _⟩ := run_rB_ok hb'
+  have hw1 : WF 4 (m.link1 l r) := hw.link1 (by omega) hl0 hr0 hln hrn hul hur f1 f0
+  have ho1 : Only01 m (m.link1 l r) := Only01.link1 hw hln hrn
+  have e3 : ∀ x, (m.link1 l r).β 3 x = m.β 3 x := fun x => ho1.β 3 x (by omega)
+  have eβ := hw.toSized.β_link1 (by omega) hln hrn
+  have e1 : ∀ x, (m.link1 l r).β 1 x = if l = x then r else m.β 1 x := by
+    intro x; rw [eβ]; simp
+  rw [e3, e3] at h
+  have hM1 : Mirror m → ∀ d, d < m.n → d ≠ l → MAtG (m.link1 l r) 1 d :=
+    fun hM d hd hdl => MAt_link1_frame hw hln hrn f1 hdl (hM d hd)
+  by_cases hc : m.β 3 l ≠ 0 ∧ m.β 3 r ≠ 0
+  · rw [if_pos hc] at h
+    obtain ⟨_, _, g1, g0, hm'⟩ := oneLinkCore_ok h
+    have em2 : ((m.link1 l r).setβ 1 (m.β 3 r) (m.β 3 l)).setβ 0 (m.β 3 l) (m.β 3 r) =
+        (m.link1 l r).link1 (m.β 3 r) (m.β 3 l) := rfl
+    rw [em2] at hm'
+    rw [hm']
+    have il := hw.image_inUse (i := 3) (by omega) hln hc.1
+    have ir := hw.image_inUse (i := 3) (by omega) hrn hc.2
+    have hw2 : WF 4 ((m.link1 l r).link1 (m.β 3 r) (m.β 3 l)) :=
+      hw1.link1 (by omega) hc.2 hc.1 ir.1 il.1 (by rw [ho1.unused]; exact ir.2)
+        (by rw [ho1.unused]; exact il.2) g1 g0
+    have ho2 : Only01 (m.link1 l r) ((m.link1 l r).link1 (m.β 3 r) (m.β 3 l)) :=
+      Only01.link1 hw1 ir.1 il.1
+    refine ⟨hw2, ho1.trans ho2, ?_⟩
+    intro hM d hd
+    have hd' : d < m.n := hd
+    have eβ2 := hw1.toSized.β_link1 (by omega) (l := m.β 3 r) (r := m.β 3 l) ir.1 il.1
+    have e1' : ∀ x, ((m.link1 l r).link1 (m.β 3 r) (m.β 3 l)).β 1 x =
+        if m.β 3 r = x then m.β 3 l else if l = x then r else m.β 1 x := by
+      intro x; rw [eβ2]; simp; rw [e1]
+    have e3' : ∀ x, ((m.link1 l r).link1 (m.β 3 r) (m.β 3 l)).β 3 x = m.β 3 x :=
+      fun x => (ho1.trans ho2).β 3 x (by omega)
+    have hlb : m.β 3 r ≠ l := by
+      intro hh
+      rw [hh, e1] at g1
+      simp at g1
+      exact hr0 g1
+    have h33r : m.β 3 (m.β 3 r) = r := (hw.invol 3 (by omega) (by omega) r hrn hc.2).1
+    have h33l : m.β 3 (m.β 3 l) = l := (hw.invol 3 (by omega) (by omega) l hln hc.1).1
+    by_cases hdl : d = l
+    · rw [hdl]
+      simp only [e3']
+      have : ¬ (m.β 3 r = l) := hlb
+      rw [e1' l]
+      simp only [this, if_false, if_true]
+      intro _ _ _
+      rw [e1']
+      simp
+    · by_cases hdb : d = m.β 3 r
+      · rw [hdb]
+        simp only [e3']
+        rw [e1' (m.β 3 r)]
+        simp only [if_true]
+        intro _ _ _
+        rw [h33l, h33r, e1']
+        have : ¬ (m.β 3 r = l) := hlb
+        simp [this]
+      · exact MAt_link1_frame hw1 ir.1 il.1 g1 hdb (hM1 hM d hd' hdl)
+  · rw [if_neg hc] at h
+    obtain ⟨_, hm'⟩ := run_pure_ok h
+    rw [hm']
+    refine ⟨hw1, ho1, ?_⟩
+    intro hM d hd
+    by_cases hdl : d = l
+    · rw [hdl]
+      simp only [e3]
+      rw [e1 l]
+      simp only [if_true]
+      intro _ g2 g3
+      exact absurd ⟨g2, g3⟩ hc
+    · exact hM1 hM d hd hdl
+
+theorem oneUnlink3_ok {l : Nat} {m m' : Map X} {u : Unit} (hw : WF 4 m) (hln : l < m.n)
+    (h : run (oneUnlink3 (X := X) l) m = (.ok u, m')) :
+    WF 4 m' ∧ Only01 m m' ∧ (Mirror m → Mirror m') := by
+  unfold oneUnlink3 at h
+  obtain ⟨r, hb0, h⟩ := run_ro_bind_ok (ReadOnly.rB _ _) h
+  obtain ⟨rfl, _, _⟩ := run_rB_ok hb0
+  obtain ⟨_, m1, hl, h⟩ := run_bind_ok h
+  obtain ⟨_, _, hne, rfl⟩ := oneUnlinkCore_ok hl
+  have em : (m.setβ 1 l 0).setβ 0 (m.β 1 l) 0 = m.unlink1 l := rfl
+  rw [em] at h
+  obtain ⟨b3l, hb, h⟩ := run_ro_bind_ok (ReadOnly.rB _ _) h
+  obtain ⟨rfl, _, _⟩ := run_rB_ok hb
+  obtain ⟨b3r, hb', h⟩ := run_ro_bind_ok (ReadOnly.rB _ _) h
+  obtain ⟨rfl, _, _⟩ := run_rB_ok hb'
+  have hrn : m.β 1 l < m.n := hw.range 1 (by omega) l hln
+  have hw1 : WF 4 (m.unlink1 l) := hw.unlink1 (by omega) hln hne
+  have ho1 : Only01 m (m.unlink1 l) := Only01.unlink1 hw hln
+  have e3 : ∀ x, (m.unlink1 l).β 3 x = m.β 3 x := fun x => ho1.β 3 x (by omega)
+  have eβ := hw.toSized.β_unlink1 (by omega) hln hrn
+  have e1 : ∀ x, (m.unlink1 l).β 1 x = if l = x then 0 else m.β 1 x := by
+    intro x; rw [eβ]; simp
+  rw [e3, e3] at h
+  by_cases hc : m.β 3 l ≠ 0 ∧ m.β 3 (m.β 1 l) ≠ 0
+  · rw [if_pos hc] at h
+    obtain ⟨x, hx, h⟩ := run_ro_bind_ok (ReadOnly.rB _ _) h
+    obtain ⟨rfl, _, _⟩ := run_rB_ok hx
+    by_cases hxx : (m.unlink1 l).β 1 (m.β 3 (m.β 1 l)) ≠ m.β 3 l
+    · rw [if_pos hxx] at h; simp at h
+    · rw [if_neg hxx] at h
+      obtain ⟨_, _, hne2, hm'⟩ := oneUnlinkCore_ok h
+      have em2 : ((m.unlink1 l).setβ 1 (m.β 3 (m.β 1 l)) 0).setβ 0
+          ((m.unlink1 l).β 1 (m.β 3 (m.β 1 l))) 0 = (m.unlink1 l).unlink1 (m.β 3 (m.β 1 l)) := rfl
+      rw [em2] at hm'
+      rw [hm']
+      have hbn : m.β 3 (m.β 1 l) < (m.unlink1 l).n := hw.range 3 (by omega) _ hrn
+      have hw2 := hw1.unlink1 (by omega) hbn hne2
+      have ho2 := Only01.unlink1 hw1 hbn
+      refine ⟨hw2, ho1.trans ho2, ?_⟩
+      intro hM d hd
+      have hd' : d < m.n := hd
+      have eβ2 := hw1.toSized.β_unlink1 (by omega) hbn (hw1.range 1 (by omega) _ hbn)
+      have e1' : ∀ x, ((m.unlink1 l).unlink1 (m.β 3 (m.β 1 l))).β 1 x =
+          if m.β 3 (m.β 1 l) = x then 0 else if l = x then 0 else m.β 1 x := by
+        intro x; rw [eβ2]; simp; rw [e1]
+      have e3' : ∀ x, ((m.unlink1 l).unlink1 (m.β 3 (m.β 1 l))).β 3 x = m.β 3 x :=
+        fun x => (ho1.trans ho2).β 3 x (by omega)
+      simp only [e3']
+      rw [e1' d]
+      by_cases hdb : m.β 3 (m.β 1 l) = d
+      · simp [hdb]
+      · by_cases hdl : l = d
+        · simp [hdb, hdl]
+        · simp only [hdb, hdl, if_false]
+          intro g1 g2 g3
+          have key := hM d hd' g1 g2 g3
+          have hcn : m.β 1 d < m.n := hw.range 1 (by omega) d hd'
+          rw [e1']
+          have hy1 : ¬ (m.β 3 (m.β 1 l) = m.β 3 (m.β 1 d)) := by
+            intro hh
+            have a1 := (hw.invol 3 (by omega) (by omega) _ hcn g3).1
+            have a2 := (hw.invol 3 (by omega) (by omega) _ hrn hc.2).1
+            rw [← hh, a2] at a1
+            -- a1 : β1 l = β1 d
+            have b1 := hw.inv01 d hd' g1
+            have b2 := hw.inv01 l hln hne
+            rw [← a1, b2] at b1
+            exact hdl b1
+          have hy2 : ¬ (l = m.β 3 (m.β 1 d)) := by
+            intro hh
+            rw [← hh] at key
+            -- key : β1 l = β3 d
+            have a1 := (hw.invol 3 (by omega) (by omega) d hd' g2).1
+            rw [← key] at a1
+            exact hdb a1
+          simp only [hy1, hy2, if_false]
+          exact key
+  · rw [if_neg hc] at h
+    obtain ⟨_, hm'⟩ := run_pure_ok h
+    rw [hm']
+    refine ⟨hw1, ho1, ?_⟩
+    intro hM d hd
+    have hd' : d < m.n := hd
+    simp only [e3]
+    rw [e1 d]
+    by_cases hdl : l = d
+    · simp [hdl]
+    · simp only [hdl, if_false]
+      intro g1 g2 g3
+      have key := hM d hd' g1 g2 g3
+      have hcn : m.β 1 d < m.n := hw.range 1 (by omega) d hd'
+      rw [e1]
+      have hy : ¬ (l = m.β 3 (m.β 1 d)) := by
+        intro hh
+        apply hc
+        have a1 := (hw.invol 3 (by omega) (by omega) _ hcn g3).1
+        rw [← hh] at a1 key
+        -- a1 : β3 l = β1 d ; key : β1 l = β3 d
+        have a2 := (hw.invol 3 (by omega) (by omega) d hd' g2).1
+        rw [← key] at a2
+        have hd0 : d ≠ 0 := fun h0 => g1 (by rw [h0]; exact hw.null 1 (by omega))
+        exact ⟨by rw [a1]; exact g1, by rw [a2]; exact hd0⟩
+      simp only [hy, if_false]
+      exact key
+
+/-- operations that leave β1 and β3 alone keep the mirror condition -/
+theorem mirror_of_β13 {m m' : Map X} (hn : m'.n = m.n) (h1 : ∀ d, m'.β 1 d = m.β 1 d)
+    (h3 : ∀ d, m'.β 3 d = m.β 3 d) (hM : Mirror m) : Mirror m' := by
+  intro d hd
+  simp only [h1, h3]
+  exact hM d (by rw [← hn]; exact hd)
+
+theorem SameTopo.mirror {m m' : Map X} (st : SameTopo m m') (hM : Mirror m) : Mirror m' :=
+  mirror_of_β13 st.n (st.β 1) (st.β 3) hM
 
 end HC
